@@ -51,6 +51,7 @@ type driveOpts struct {
 	post      func(sc *tls.Conn) // server side, after its handshake completed
 	rawServer func(conn net.Conn)
 	deadline  time.Duration
+	writes    bool // the client also writes application data before and after its Reads
 }
 
 type driveResult struct {
@@ -144,6 +145,9 @@ func drive(o driveOpts) *driveResult {
 		}()
 		res.hsErr = uc.Handshake()
 		if res.hsErr == nil {
+			if o.writes {
+				uc.Write([]byte("ping-before-read"))
+			}
 			buf := make([]byte, 4096)
 			for i := 0; i < 64; i++ {
 				n, err := uc.Read(buf)
@@ -152,6 +156,9 @@ func drive(o driveOpts) *driveResult {
 					res.readErr = err
 					break
 				}
+			}
+			if o.writes {
+				uc.Write([]byte("ping-after-read"))
 			}
 		}
 	}()
@@ -315,7 +322,12 @@ var maxElapsed time.Duration
 
 // judge applies the property's oracle to one run.
 func judge(c *vh.Ctx, r *driveResult, mutation, message string, input any) {
-	c.Count("runs/" + message)
+	judgeKey(c, r, mutation+"/"+message, message, input)
+}
+
+// judgeKey: key = the part of the failure key after panic/ hang/ alloc/.
+func judgeKey(c *vh.Ctx, r *driveResult, key, countAs string, input any) {
+	c.Count("runs/" + countAs)
 	if r.buildErr != nil {
 		c.Count("build-error")
 		return
@@ -323,7 +335,6 @@ func judge(c *vh.Ctx, r *driveResult, mutation, message string, input any) {
 	if r.srvPanic != "" {
 		c.Count("harness-server-panic") // the scripted server is test equipment
 	}
-	key := mutation + "/" + message
 	if !r.hung && !r.panicked && r.alloc > maxAlloc {
 		maxAlloc = r.alloc
 		c.Extra["max_alloc_bytes"] = r.alloc
@@ -339,7 +350,7 @@ func judge(c *vh.Ctx, r *driveResult, mutation, message string, input any) {
 	case r.panicked:
 		c.Fail("panic/"+key, "the client panicked on hostile server input: "+firstLine(r.panicVal), input, r.panicVal, "Handshake/Read return normally")
 	case r.hung:
-		c.Fail("hang/"+key, "client Handshake/Read did not return within 2 s after the connection deadline", input, outcome, "returns within the deadline")
+		c.Fail("hang/"+key, "client Handshake/Read/Write did not return within 2 s after the connection deadline", input, outcome, "returns within the deadline")
 	case r.alloc > allocLimit:
 		c.Fail("alloc/"+key, fmt.Sprintf("one client handshake allocated %d bytes (limit %d)", r.alloc, allocLimit), input, outcome, "allocation within the protocol's length limits")
 	}
@@ -558,6 +569,8 @@ func run(c *vh.Ctx) {
 	postCases(c, pki, parrots, &live)
 	// (3) targeted inputs
 	targeted(c, pki, parrots, &live)
+	bombs(c, pki, parrots, &live)
+	keyShareLengths(c, pki, parrots, &live)
 	// (4) raw record streams
 	rawStreams(c, pki, parrots, &live)
 	c.Extra["live_connections"] = live
@@ -582,56 +595,105 @@ func postCases(c *vh.Ctx, pki *hs.PKI, parrots []*parrotInfo, live *int) {
 		c.Rng.Read(b)
 		return b
 	}
-	base := map[string]func() []byte{
-		"NewSessionTicket":       func() []byte { return nst13(3600, rb(8), rb(64), nil) },
-		"NewSessionTicket-early": func() []byte { return nst13(7200, rb(1), rb(300), []byte{0, 42, 0, 4, 0xff, 0xff, 0xff, 0xff}) },
-		"NewSessionTicket-big":   func() []byte { return nst13(604800, rb(255), rb(60000), nil) },
-		"KeyUpdate":              func() []byte { return []byte{24, 0, 0, 1, 1} },
-		"EncryptedExtensions-post": func() []byte {
-			return []byte{8, 0, 0, 10, 0, 8, 0x44, 0x69, 0, 4, 1, 2, 3, 4}
-		},
-		"CompressedCertificate-post": func() []byte { return []byte{25, 0, 0, 9, 0, 2, 0, 0, 1, 0, 0, 1, 0x06} },
+	type pm struct {
+		name  string
+		count int
+		gen   func() []byte
 	}
-	names := []string{"NewSessionTicket", "NewSessionTicket-early", "NewSessionTicket-big", "KeyUpdate", "EncryptedExtensions-post", "CompressedCertificate-post"}
+	nst12 := func() []byte { // TLS 1.2 NewSessionTicket: lifetime(4) ticket(u16lp)
+		t := rb(40)
+		return append([]byte{4, 0, 0, byte(6 + len(t)), 0, 0, 14, 16, 0, byte(len(t))}, t...)
+	}
+	ee := func() []byte { return []byte{8, 0, 0, 10, 0, 8, 0x44, 0x69, 0, 4, 1, 2, 3, 4} }
+	cc := func() []byte { return []byte{25, 0, 0, 9, 0, 2, 0, 0, 1, 0, 0, 1, 0x06} }
+	post13 := []pm{
+		{"NewSessionTicket", 1, func() []byte { return nst13(3600, rb(8), rb(64), nil) }},
+		{"NewSessionTicket-x300", 300, func() []byte { return nst13(3600, rb(8), rb(64), nil) }},
+		{"NewSessionTicket-early", 1, func() []byte { return nst13(7200, rb(1), rb(300), []byte{0, 42, 0, 4, 0xff, 0xff, 0xff, 0xff}) }},
+		{"NewSessionTicket-big", 1, func() []byte { return nst13(604800, rb(255), rb(60000), nil) }},
+		{"KeyUpdate", 1, func() []byte { return []byte{24, 0, 0, 1, 1} }},
+		{"KeyUpdate-x40", 40, func() []byte { return []byte{24, 0, 0, 1, 1} }},
+		{"HelloRequest", 1, func() []byte { return []byte{0, 0, 0, 0} }},
+		{"HelloRequest-x5", 5, func() []byte { return []byte{0, 0, 0, 0} }},
+		{"EncryptedExtensions", 1, ee},
+		{"CompressedCertificate", 1, cc},
+		{"Finished", 1, func() []byte { return append([]byte{20, 0, 0, 32}, rb(32)...) }},
+	}
+	post12 := []pm{
+		{"HelloRequest", 1, func() []byte { return []byte{0, 0, 0, 0} }},
+		{"HelloRequest-x5", 5, func() []byte { return []byte{0, 0, 0, 0} }},
+		{"HelloRequest-with-body", 1, func() []byte { return append([]byte{0, 0, 0, 3}, rb(3)...) }},
+		{"NewSessionTicket", 1, nst12},
+		{"NewSessionTicket-x300", 300, nst12},
+		{"KeyUpdate", 1, func() []byte { return []byte{24, 0, 0, 1, 1} }},
+		{"KeyUpdate-x40", 40, func() []byte { return []byte{24, 0, 0, 1, 0} }},
+		{"EncryptedExtensions", 1, ee},
+		{"CompressedCertificate", 1, cc},
+		{"ServerHelloDone", 1, func() []byte { return []byte{14, 0, 0, 0} }},
+		{"Finished", 1, func() []byte { return append([]byte{20, 0, 0, 12}, rb(12)...) }},
+	}
+	hangs := 0
 	n := 0
-	for pi, p := range parrots {
-		if !p.usable13 {
-			continue
+	oneCase := func(p *parrotInfo, vers uint16, m pm, mut string) {
+		if hangs >= 3 {
+			c.Count("skipped/post-handshake-after-3-hangs")
+			return
 		}
-		reps := 3
-		if c.Tier != "quick" {
-			reps = 12
+		msg := m.gen()
+		kind := map[uint16]string{tls.VersionTLS13: "tls13", tls.VersionTLS12: "tls12"}[vers] + "/" + m.name
+		if mut != "none" {
+			msg = mutateMsg(mut, msg, rand.New(rand.NewSource(c.Rng.Int63())))
+			kind += "~" + mut
 		}
-		for k := 0; k < reps; k++ {
-			name := names[(pi+k)%len(names)]
-			kind := append([]string{"none"}, mutKinds...)[(n)%(len(mutKinds)+1)]
-			n++
-			if kind == "reorder" || kind == "drop" {
-				kind = "bitflip"
-			}
-			msg := base[name]()
-			if kind != "none" {
-				msg = mutateMsg(kind, msg, rand.New(rand.NewSource(c.Rng.Int63())))
-			}
-			count := 1
-			if name == "KeyUpdate" && k%2 == 1 {
-				count = 40
-			}
-			if name == "NewSessionTicket" && k%2 == 1 {
-				count = 300 // ticket flood
-			}
-			r := drive(driveOpts{id: p.ID, spec: specOf(p), ccfg: clientCfg(pki, p), scfg: pki.ServerConfig("h2", "http/1.1"), script: &tls.VerifServerScript{},
-				post: func(sc *tls.Conn) {
-					for i := 0; i < count; i++ {
-						if err := sc.VerifC34WriteHandshakeRecord(msg); err != nil {
-							return
-						}
+		scfg := pki.ServerConfig("h2", "http/1.1")
+		scfg.MaxVersion = vers
+		r := drive(driveOpts{id: p.ID, spec: specOf(p), ccfg: clientCfg(pki, p), scfg: scfg, script: &tls.VerifServerScript{}, writes: true,
+			post: func(sc *tls.Conn) {
+				for i := 0; i < m.count; i++ {
+					if err := sc.VerifC34WriteHandshakeRecord(msg); err != nil {
+						return
 					}
-					sc.Write([]byte("tail"))
-				}})
-			*live++
-			judge(c, r, kind, name, map[string]any{"parrot": p.Name, "scenario": "post-handshake", "mutation": kind, "message": name, "count": count,
-				"sent": hexScript([][]byte{msg}), "seed": c.Seed})
+				}
+				sc.Write([]byte("tail"))
+				// give the client room to answer (a renegotiating client sends a ClientHello) before the close
+				sc.SetReadDeadline(time.Now().Add(150 * time.Millisecond))
+				buf := make([]byte, 2048)
+				sc.Read(buf)
+			}})
+		*live++
+		if r.hung {
+			hangs++
+		}
+		judgeKey(c, r, "post-handshake/"+kind+"/"+p.Name, "post-handshake/"+kind, map[string]any{"parrot": p.Name, "scenario": "post-handshake", "version": vers,
+			"message": m.name, "mutation": mut, "count": m.count, "sent": hexScript([][]byte{msg}), "seed": c.Seed})
+	}
+	muts := append([]string{"none", "none"}, mutKinds...)
+	for pi, p := range parrots {
+		reps := 2
+		if c.Tier != "quick" {
+			reps = 10
+		}
+		if p.usable13 {
+			for k := 0; k < reps; k++ {
+				mut := muts[n%len(muts)]
+				n++
+				if mut == "reorder" || mut == "drop" {
+					mut = "bitflip"
+				}
+				oneCase(p, tls.VersionTLS13, post13[(pi+k*5)%len(post13)], mut)
+			}
+		}
+		if p.usable12 {
+			// every client meets a plain HelloRequest (whether it renegotiates depends on its own RenegotiationInfoExtension)
+			oneCase(p, tls.VersionTLS12, post12[0], "none")
+			for k := 0; k < reps-1; k++ {
+				mut := muts[n%len(muts)]
+				n++
+				if mut == "reorder" || mut == "drop" {
+					mut = "bitflip"
+				}
+				oneCase(p, tls.VersionTLS12, post12[1+(pi+k*3)%(len(post12)-1)], mut)
+			}
 		}
 	}
 }
@@ -889,6 +951,182 @@ func rawStreams(c *vh.Ctx, pki *hs.PKI, parrots []*parrotInfo, live *int) {
 					}
 				}
 				judge(c, r, "raw", kd.name, map[string]any{"parrot": p.Name, "scenario": "raw stream", "stream": hexScript([][]byte{data}), "seed": c.Seed})
+			}
+		}
+	}
+}
+
+// ---------------------------------------------------------------- decompression bombs
+
+// bombs: for each algorithm a stream that fits a CompressedCertificate message (< 64 KiB) and inflates to tens of MiB, under a
+// small and legal declared length. A client may read the declared length (+1 byte) out of it, never the whole stream.
+func bombs(c *vh.Ctx, pki *hs.PKI, parrots []*parrotInfo, live *int) {
+	sizes := map[uint16]int{1: 48 << 20, 2: 96 << 20, 3: 96 << 20}
+	names := map[uint16]string{1: "zlib", 2: "brotli", 3: "zstd"}
+	for _, alg := range []uint16{1, 2, 3} {
+		z, err := tls.VerifCompress(alg, make([]byte, sizes[alg]))
+		if err != nil || len(z) > 65000 {
+			c.Count(fmt.Sprintf("bomb-not-built/%s/%d", names[alg], len(z)))
+			continue
+		}
+		c.Extra["bomb_"+names[alg]+"_bytes"] = len(z)
+		runtime.GC()
+		for _, declared := range []uint32{1000, 262144} {
+			mutation := fmt.Sprintf("bomb-%s-%dMiB-declared-%d", names[alg], sizes[alg]>>20, declared)
+			input := map[string]any{"algorithm": alg, "declared_uncompressed_length": declared, "inflates_to": sizes[alg], "compressed_len": len(z),
+				"compressed_payload": hexScript([][]byte{z})}
+			// (a) decompressCert directly
+			var m0, m1 runtime.MemStats
+			runtime.ReadMemStats(&m0)
+			var res tls.VerifC21Result
+			ok := guard(c, "decompressCert", mutation, z[:16], func() {
+				res = tls.VerifDecompressCert([]tls.CertCompressionAlgo{tls.CertCompressionAlgo(alg)}, alg, declared, z)
+			})
+			runtime.ReadMemStats(&m1)
+			if ok {
+				d := m1.TotalAlloc - m0.TotalAlloc
+				c.Count("runs/decompressCert-bomb")
+				if d > allocLimit {
+					c.Fail("alloc/"+mutation+"/decompressCert", fmt.Sprintf("decompressCert allocated %d bytes (limit %d) for a %d-byte payload declaring %d bytes", d, allocLimit, len(z), declared),
+						input, map[string]any{"alloc_bytes": d, "err": fmt.Sprint(res.Err)}, "allocation bounded by the declared length, itself <= maxHandshakeCertificateMsg")
+				}
+				if res.Err == nil {
+					c.Fail("accept/"+mutation+"/decompressCert", "decompressCert accepted a stream far longer than its declared length", input, "nil error", "bad_certificate")
+				}
+			}
+			// (b) live
+			n := 0
+			for _, p := range parrots {
+				if !p.usable13 || !hasAlg(p, alg) {
+					continue
+				}
+				if n >= 2 && c.Tier == "quick" {
+					break
+				}
+				n++
+				d := declared
+				s := &tls.VerifServerScript{CertCompression: alg, CompressedCert: z, CompressedCertULen: &d}
+				r := drive(driveOpts{id: p.ID, spec: specOf(p), ccfg: clientCfg(pki, p), scfg: pki.ServerConfig("h2"), script: s})
+				*live++
+				in2 := map[string]any{"parrot": p.Name, "scenario": "decompression bomb"}
+				for k, v := range input {
+					in2[k] = v
+				}
+				judge(c, r, mutation, "CompressedCertificate", in2)
+			}
+		}
+	}
+}
+
+// ---------------------------------------------------------------- server key_share lengths
+
+func groupShareSize(g uint16) int {
+	switch g {
+	case uint16(tls.X25519):
+		return 32
+	case uint16(tls.CurveP256):
+		return 65
+	case uint16(tls.CurveP384):
+		return 97
+	case uint16(tls.CurveP521):
+		return 133
+	case uint16(tls.X25519MLKEM768), 0x6399: // X25519MLKEM768, X25519Kyber768Draft00: 1088-byte ciphertext + 32-byte share
+		return 1120
+	}
+	return 0
+}
+
+// setServerShare rewrites the key_share extension of a ServerHello to (group, data) and fixes the length fields.
+func setServerShare(b []byte, group uint16, data []byte) ([]byte, bool) {
+	if len(b) < 4+2+32+1 {
+		return nil, false
+	}
+	i := 4 + 2 + 32
+	i += 1 + int(b[i])
+	i += 3
+	if i+2 > len(b) {
+		return nil, false
+	}
+	exts := b[i+2:]
+	var out []byte
+	found := false
+	for len(exts) >= 4 {
+		id := uint16(exts[0])<<8 | uint16(exts[1])
+		l := int(exts[2])<<8 | int(exts[3])
+		if 4+l > len(exts) {
+			return nil, false
+		}
+		if id == 51 {
+			body := append([]byte{byte(group >> 8), byte(group), byte(len(data) >> 8), byte(len(data))}, data...)
+			out = append(out, 0, 51, byte(len(body)>>8), byte(len(body)))
+			out = append(out, body...)
+			found = true
+		} else {
+			out = append(out, exts[:4+l]...)
+		}
+		exts = exts[4+l:]
+	}
+	if !found {
+		return nil, false
+	}
+	body := append(append([]byte(nil), b[4:i]...), byte(len(out)>>8), byte(len(out)))
+	body = append(body, out...)
+	return append([]byte{2, byte(len(body) >> 16), byte(len(body) >> 8), byte(len(body))}, body...), true
+}
+
+// keyShareLengths: for every group a client sent a share for (hybrid groups first), a ServerHello whose key_share for that
+// group has 0, 1, 31, 32, 33, size-1, size, size+1 bytes.
+func keyShareLengths(c *vh.Ctx, pki *hs.PKI, parrots []*parrotInfo, live *int) {
+	k := 0
+	for _, p := range parrots {
+		if !p.usable13 {
+			continue
+		}
+		var hybrid, classical []uint16
+		for _, g := range p.shares {
+			sz := groupShareSize(g)
+			if sz == 0 {
+				continue
+			}
+			if sz > 200 {
+				hybrid = append(hybrid, g)
+			} else {
+				classical = append(classical, g)
+			}
+		}
+		for gi, g := range append(hybrid, classical...) {
+			sz := groupShareSize(g)
+			lens := []int{0, 1, 31, 32, 33, sz - 1, sz, sz + 1}
+			if c.Tier == "quick" && gi >= len(hybrid) {
+				// classical groups: three of the lengths per client in the quick tier, rotating
+				lens = []int{lens[k%8], lens[(k+3)%8], lens[(k+5)%8]}
+				k++
+			}
+			seen := map[int]bool{}
+			for _, l := range lens {
+				if l < 0 || seen[l] {
+					continue
+				}
+				seen[l] = true
+				data := make([]byte, l)
+				c.Rng.Read(data)
+				hit := false
+				s := &tls.VerifServerScript{MutateHandshakeMsg: func(typ uint8, b []byte) []byte {
+					if typ == 2 && !hit {
+						if nb, ok := setServerShare(b, g, data); ok {
+							hit = true
+							return nb
+						}
+					}
+					return b
+				}}
+				r := drive(driveOpts{id: p.ID, spec: specOf(p), ccfg: clientCfg(pki, p), scfg: pki.ServerConfig("h2"), script: s, deadline: gridDeadline})
+				*live++
+				if !hit {
+					c.Count("mutation-not-reached/keyshare")
+				}
+				judgeKey(c, r, fmt.Sprintf("keyshare-%d-bytes/ServerHello/group-0x%04x/%s", l, g, p.Name), fmt.Sprintf("ServerHello-keyshare/group-0x%04x", g),
+					map[string]any{"parrot": p.Name, "scenario": "server key_share length", "group": g, "share_len": l, "honest_len": sz, "seed": c.Seed})
 			}
 		}
 	}
